@@ -897,17 +897,6 @@ def check_variant(case):
                               "order:" + case["order_spell"], ">=1day" if span else "<1day"] + sorted(cls), ratio=worst)
 
 
-def clone_settings(facet, case, kind, msg, data):
-    """Ephem.copy() / Ephem.ephem() build the new Ephem without method and order: the clone interpolates
-    with the defaults (lagrange, 8)."""
-    return facet == "variants" and kind == "clone-settings" and data.get("how") in ("copy()", "ephem()")
-
-
-def numpy_order(facet, case, kind, msg, data):
-    """Ephem(order=<numpy integer>) silently falls back to order 8 (isinstance(order, int))."""
-    return facet == "variants" and kind == "spelling" and case.get("order_spell", "").startswith("np.")
-
-
 # ------------------------------------------------------------------ raw_types (containers / dtypes of the raw interpolator)
 
 XKINDS = ["f64", "list", "tuple", "int64", "pyint-list", "f32", "view"]
@@ -1100,8 +1089,7 @@ def linear_node_rounding(facet, case, kind, msg, data):
     return facet == "node_exact" and kind == "node-linear" and case.get("method") == "linear"
 
 
-FINDINGS = {"C09/linear-node-rounding": linear_node_rounding, "C09/clone-loses-settings": clone_settings,
-            "C09/numpy-order-ignored": numpy_order}
+FINDINGS = {"C09/linear-node-rounding": linear_node_rounding}
 
 FACETS = [
     Facet("node_exact", node_case, check_node_exact, setup=_setup,
